@@ -184,7 +184,9 @@ def run(ctx):
             for _ in range(3):
                 if is_call(sig_in) and callee_name(sig_in[1]) in ("from_slice", "from_bytes", "try_from", "try_into", "from", "into") and sig_in[2]:
                     sig_in = values.strip_payload(sig_in[2][0])
-            oks = is_call(sig_src) and "Signature" in sig_src[1] and sig_in == ("param", MSGVERIFY, 2)
+            # (VerifyingKey::verify takes a &Signature: whatever conversion is used, the only input to it must be the caller's signature bytes;
+            #  `Signature::try_from(sig)` is a value-preserving conversion and leaves the parameter itself as the term)
+            oks = sig_in == ("param", MSGVERIFY, 2) and (sig_src == sig_in or (is_call(sig_src) and "Signature" in sig_src[1]))
             ok = okk and okd and oks
             detail = "verify = is_ok(VerifyingKey::verify(key=%s, msg=%s, sig=%s))" % (values.fmt(key), values.fmt(data), values.fmt(sig_src))
     ctx.check("predicate-integrity", "sign::MsgVerifier::verify/returns-dalek-result", ok, detail,
